@@ -642,16 +642,35 @@ def part_c(facts, res):
             res.errors.append("anchor %s: %r" % (suffix, k))
             return []
         return [(p, t) for i, p, t in cfgmod.Cfg(facts.bodies[k[0]]).calls()]
+    # The three plumbing facts are decided on call chains.  A recognised-good shape passes, a recognised-bad feature is a
+    # finding, any other shape is "not decidable" (checker error) - a correct rewrite must never alarm.
     pm = [p for p, t in calls_of("socket::Socket::pop_messages")]
-    okk = any(p.endswith("Receiver::<T>::try_iter") for p in pm) and any(p.endswith("Iterator::collect") for p in pm) and not any("recv" in p.split("::")[-1] for p in pm)
+    last = [p.split("::")[-1] for p in pm]
+    good = (any(p.endswith("Receiver::<T>::try_iter") for p in pm) and any(p.endswith("Iterator::collect") for p in pm)) or \
+           ("try_recv" in last and "push" in last)
+    blocking = [n for n in last if n in ("recv", "recv_timeout", "recv_deadline")] + [n for p, n in zip(pm, last) if n == "iter" and "Receiver" in p]
+    lossy = [n for n in last if n in ("take", "nth", "skip", "filter", "step_by", "last", "truncate", "pop", "dedup", "retain")]
+    okk = good and not blocking and not lossy
     res.ob(okk)
-    if not okk:
-        res.finding("plumbing|pop_messages", "pop_messages is not try_iter().collect() (calls %r)" % pm)
+    if blocking:
+        res.finding("plumbing|pop_messages", "pop_messages blocks on the channel (%r): the emulator would stall until the client sends a line" % blocking)
+    elif lossy:
+        res.finding("plumbing|pop_messages", "pop_messages drops or reorders queued lines (%r)" % lossy)
+    elif not good:
+        res.errors.append("pop_messages: the way the channel is drained is not one this rule recognises (calls %r): not decidable" % last)
     sm = calls_of("socket::Socket::send_message")
-    okk = [p.split("::")[-1] for p, t in sm if "fmt" not in p and "Try" not in p and "FromResidual" not in p and "from_residual" not in p][:2] == ["clone", "send"]
+    names_sm = [p.split("::")[-1] for p, t in sm if "fmt" not in p and "Try" not in p and "FromResidual" not in p and "from_residual" not in p]
+    nsend = names_sm.count("send")
+    okk = names_sm[:2] == ["clone", "send"] and nsend == 1
     res.ob(okk)
-    if not okk:
-        res.finding("plumbing|send_message", "Socket::send_message does not send a clone of its argument once (calls %r)" % [p for p, t in sm])
+    if nsend != 1:
+        res.finding("plumbing|send_message", "Socket::send_message hands its argument to the channel %d times (calls %r)" % (nsend, names_sm))
+    elif not okk:
+        alters = [n for n in names_sm if n in ("replace", "trim", "trim_end", "to_uppercase", "to_lowercase", "truncate", "pop", "push", "push_str", "remove", "split_off")]
+        if alters:
+            res.finding("plumbing|send_message", "Socket::send_message alters the text before queueing it (%r)" % alters)
+        else:
+            res.errors.append("send_message: call chain %r is not one this rule recognises: not decidable" % names_sm)
     rw = [k for k in facts.bodies if k.endswith("start_receive_worker::{closure#0}")]
     if len(rw) == 1:
         calls = [(p, t) for i, p, t in cfgmod.Cfg(facts.bodies[rw[0]]).calls()]
@@ -660,11 +679,20 @@ def part_c(facts, res):
         gg = cfgmod.Cfg(facts.bodies[rw[0]])
         r1 = gg.roots(rep[0]["args"][1]) if rep else set()
         r2 = gg.roots(rep[0]["args"][2]) if rep else set()
-        okk = "read_line" in names and "send" in names and names.count("send") == 1 and len(rep) == 1 and ("const", "10") in r1 \
-            and ("const", "") in r2 and "clear" in names
+        strip_ok = (len(rep) == 1 and ("const", "10") in r1 and ("const", "") in r2) or any(n in names for n in ("trim_end_matches", "strip_suffix", "trim_end"))
+        okk = "read_line" in names and names.count("send") == 1 and strip_ok and "clear" in names and len(rep) <= 1
         res.ob(okk)
         if not okk:
-            res.finding("plumbing|receive-worker", "the receive worker is not read_line / strip newline / send once / clear (calls %r)" % names)
+            if "read_line" in names and names.count("send") != 1:
+                res.finding("plumbing|receive-worker", "the receive worker forwards a line %d times (calls %r)" % (names.count("send"), names))
+            elif "read_line" in names and "clear" not in names and "new" not in names and "take" not in names:
+                res.finding("plumbing|receive-worker", "the receive worker never clears its line buffer: consecutive lines are concatenated (calls %r)" % names)
+            elif "read_line" in names and not strip_ok and not any(n in names for n in ("trim", "lines", "pop", "truncate")):
+                res.finding("plumbing|receive-worker", "the receive worker forwards the line with its terminator (no newline strip; calls %r)" % names)
+            elif len(rep) > 1 or (rep and not strip_ok):
+                res.finding("plumbing|receive-worker", "the receive worker rewrites the line beyond stripping the newline (calls %r)" % names)
+            else:
+                res.errors.append("receive worker: call chain %r is not one this rule recognises: not decidable" % names)
     else:
         res.errors.append("anchor receive worker: %r" % rw)
 
